@@ -47,6 +47,19 @@ XAML_SEED = b"""<Viewport3D xmlns="http://schemas.microsoft.com/winfx/2006/xaml/
 """
 
 
+_3DXML_MANIFEST = b'<Manifest><Root>scene.3dxml</Root></Manifest>'
+_3DXML_SCENE = b'''<Model_3dxml xmlns="http://www.3ds.com/xsd/3DXML">
+<ProductStructure root="1">
+<Reference3D id="1" name="root"/>
+<Reference3D id="2" name="part"/>
+<Instance3D id="3" name="inst"><IsAggregatedBy>1</IsAggregatedBy><IsInstanceOf>2</IsInstanceOf><RelativeMatrix>1 0 0 0 1 0 0 0 1 1 2 3</RelativeMatrix></Instance3D>
+<ReferenceRep id="4" name="rep" format="TESSELLATED" associatedFile="urn:3DXML:rep.3DRep"/>
+<InstanceRep id="5" name="irep"><IsAggregatedBy>2</IsAggregatedBy><IsInstanceOf>4</IsInstanceOf></InstanceRep>
+</ProductStructure>
+</Model_3dxml>'''
+_3DXML_REP = b'''<XMLRepresentation xmlns="http://www.3ds.com/xsd/3DXML"><Root><Rep><Faces><Face triangles="0 1 2" strips="0 1 2 1"/></Faces><VertexBuffer><Positions>0 0 0,1 0 0,0 1 0</Positions><Normals>0 0 1,0 0 1,0 0 1</Normals></VertexBuffer></Rep></Root></XMLRepresentation>'''
+
+
 def seeds():
     import trimesh
 
@@ -104,6 +117,12 @@ def seeds():
         zi = zipfile.ZipInfo("tri.stl", date_time=(2020, 1, 1, 0, 0, 0))
         z.writestr(zi, tri.export(file_type="stl"))
     out["zip_stored"] = ("zip", zb.getvalue())
+    # hand-written minimal 3DXML (a stored zip of three xml members: manifest, product structure, tessellated rep)
+    zb = io.BytesIO()
+    with zipfile.ZipFile(zb, "w", zipfile.ZIP_STORED) as z:
+        for n3, d3 in (("Manifest.xml", _3DXML_MANIFEST), ("scene.3dxml", _3DXML_SCENE), ("rep.3DRep", _3DXML_REP)):
+            z.writestr(zipfile.ZipInfo(n3, date_time=(2020, 1, 1, 0, 0, 0)), d3)
+    out["3dxml"] = ("3dxml", zb.getvalue())
     if "dae" in out:
         zb = io.BytesIO()
         with zipfile.ZipFile(zb, "w", zipfile.ZIP_DEFLATED) as z:
